@@ -439,6 +439,8 @@ class Dimension:
             return
         for slot, value in (state[1] if isinstance(state, tuple) else state).items():
             setattr(self, slot, value)
+        # the pickle may be older than the latest Dimension.define (see _padded)
+        self.exponents = self._padded(self.exponents)
 
     # JSON support
 
